@@ -77,7 +77,7 @@ class SpecRegistry:
             except RecursionError:
                 pass
         ts = [lift(a, st, t) for a, t in zip(args, f.argtys)]
-        return mk(f.decl(*ts), f.resty)
+        return mk(_apply_distributing(f.decl, ts, 0), f.resty)
 
     # ---------------------------------------------------------------------------------------------- unfolding
     def unfold(self, ip, terms, extra_fuel=0, opaque=()):
@@ -128,6 +128,20 @@ class SpecRegistry:
             for t in [eq] + facts:
                 scan(t, depth + 1)
         return eqs
+
+
+def _apply_distributing(decl, ts, depth):
+    """F(..., ite(c, a, b), ...) == ite(c, F(..., a, ...), F(..., b, ...)): applications are pushed below if-then-else
+    arguments (merged values), so that the defining equation can later be instantiated at each alternative"""
+    if depth < 5:
+        for i, t in enumerate(ts):
+            if z3.is_app(t) and t.decl().kind() == z3.Z3_OP_ITE and not z3.is_bool(t):
+                c, a, b = t.children()
+                ta = list(ts)
+                tb = list(ts)
+                ta[i], tb[i] = a, b
+                return z3.If(c, _apply_distributing(decl, ta, depth + 1), _apply_distributing(decl, tb, depth + 1))
+    return decl(*ts)
 
 
 def _has_bound_var(x):
